@@ -67,9 +67,7 @@ def run_property(prop, tier, seed, only=None):
     with cf.ThreadPoolExecutor(max_workers=jobs) as ex:
         futs = {}
         for h in order:
-            extra = list(h.get("extra", []))
-            if h.get("stubbing"):
-                extra += ["-Z", "stubbing"]
+            extra = list(h.get("extra", [])) + ["-Z", "stubbing"]
             tmo = h.get("timeout_thorough", h.get("timeout", 1200)) if tier == "thorough" else h.get("timeout", 1200)
             futs[ex.submit(kani.run_harness, h["crate"], h["name"], tmo, h.get("mem_gb", 12), extra)] = h
         for f in cf.as_completed(futs):
@@ -118,9 +116,7 @@ def run_property(prop, tier, seed, only=None):
     def do_replay(item):
         r, unknown = item
         h = r["spec"]
-        extra = list(h.get("extra", []))
-        if h.get("stubbing"):
-            extra += ["-Z", "stubbing"]
+        extra = list(h.get("extra", [])) + ["-Z", "stubbing"]
         try:
             return kani.playback(h["crate"], h["name"], extra, timeout_s=max(1800, 2 * h.get("timeout", 1200)), mem_gb=h.get("mem_gb", 12) + 2)
         except Exception as e:  # tooling problem
